@@ -177,19 +177,20 @@ def run(eng, run):
         run.ob("C19.own", f"{f.short}:borrow", not bad_nodes)
         n_inst += 1
     run.floor("C19.own instances", n_inst, 6)
-    check_all_attempted(eng, run, race, tc)
-    check_every_address_accounted(eng, run, impl)
-    check_entry_lists(eng, run, resolver)
-    check_registered(eng, run)
-    check_winner_handoff(eng, run)
+    run.attempt(check_all_attempted, eng, run, race, tc)
+    run.attempt(check_every_address_accounted, eng, run, impl)
+    run.attempt(check_entry_lists, eng, run, resolver)
+    run.attempt(check_registered, eng, run)
+    run.attempt(check_winner_handoff, eng, run)
     # the race winner handed to the TLS layer: a handshake that fails *or is cancelled* closes it (ownership machinery of C14)
     from rules import c14
     from sa.analyses.closing import CloserRegistry
     registry = CloserRegistry(eng)
-    c14.check_close_path(eng, run, registry, db.fn("lowlevel.api_async.transports.tls:AsyncTLSStreamTransport.wrap"), tracked=["transport"], exits="exc", rule="C19.own")
+    run.attempt(c14.check_close_path, eng, run, registry, db.fn("lowlevel.api_async.transports.tls:AsyncTLSStreamTransport.wrap"), tracked=["transport"], exits="exc", rule="C19.own")
     # the blocking twin: the socket connected by socket.create_connection() (which walks the address list itself) is closed when the
     # rest of the constructor fails
-    c14.check_close_path(eng, run, registry, db.fn("clients.tcp:TCPNetworkClient.__init__"), tracked=["socket", "transport"], exits="exc", rule="C19.own", late=("socket", "transport"))
+    run.attempt(c14.check_close_path, eng, run, registry, db.fn("clients.tcp:TCPNetworkClient.__init__"), tracked=["socket", "transport"], exits="exc", rule="C19.own", late=("socket", "transport"))
+    run.end_of_rules()
 
 
 def check_entry_lists(eng, run, resolver):
